@@ -432,13 +432,14 @@ def run_omitted(ctx, rng, spec):
     for i in range(spec['count']):
         regions, mode = carts.random_regions(rng)
         regions['music'] = rc.music_mask(regions['music'])
-        omit = tuple(n for n in names if rng.random() < 0.4) or (names[i % 5],)
-        if i % 7 == 0:
+        # which sections are left out / written short rotates with the case index, so every section gets both treatments
+        omit = tuple(n for k, n in enumerate(names) if (i + k) % 3 == 0)
+        if i % 7 == 6:
             omit = tuple(names)
         code = carts.simple_lua(rng, rng.choice((0, 40, 300)))
         version = rng.choice((8, 33, 41))
         # sections current PICO-8 writes short: only the rows up to the last one that holds anything but default contents
-        trim = tuple(n for n in names if n not in omit and rng.random() < 0.5)
+        trim = tuple(n for k, n in enumerate(names) if n not in omit and (i + k) % 3 == 1)
         rowbytes = {'gfx': 64, 'gff': 128, 'map': 128, 'music': 4, 'sfx': 68}
         regions = dict(regions)
         for n in trim:
